@@ -190,6 +190,24 @@ fn body(name: &str, tid: usize) -> Vec<Vec<u8>> {
             let r = enc.encode().unwrap();
             r.recovery_iter().map(|s| s.to_vec()).collect()
         }
+        "nosimd-enc" | "avx2-enc" => {
+            let rec: Vec<Vec<u8>> = if name == "nosimd-enc" {
+                let mut enc = HighRateEncoder::new(3, 2, 64, NoSimd::new(), None).unwrap();
+                for o in &ORIG {
+                    enc.add_original_shard(o).unwrap();
+                }
+                let r = enc.encode().unwrap();
+                r.recovery_iter().map(|s| s.to_vec()).collect()
+            } else {
+                let mut enc = LowRateEncoder::new(3, 2, 64, Avx2::new(), None).unwrap();
+                for o in &ORIG {
+                    enc.add_original_shard(o).unwrap();
+                }
+                let r = enc.encode().unwrap();
+                r.recovery_iter().map(|s| s.to_vec()).collect()
+            };
+            rec
+        }
         "nosimd" => round(NoSimd::new(), NoSimd::new(), false, tid),
         "ssse3" => round(Ssse3::new(), Ssse3::new(), true, tid),
         "avx2" => round(Avx2::new(), Avx2::new(), false, tid),
@@ -279,6 +297,8 @@ fn scenarios(thorough: bool) -> Vec<(Scenario, Vec<usize>, usize)> {
         (s("naive||naive", &["naive", "naive"]), vec![0, 1, 2, all], 400_000),
         (s("naive||naive-low", &["naive", "naive-low"]), vec![0, 1, 2, all], 400_000),
         (s("naive-enc||oneshot", &["naive-enc", "oneshot"]), vec![0, 1, 2], 400_000),
+        // first use of the NoSimd table family racing with first use of the SIMD table family
+        (s("nosimd-enc||avx2-enc", &["nosimd-enc", "avx2-enc"]), if thorough { vec![0, 1, 2, 3, all] } else { vec![0, 1, 2] }, 400_000),
         (s("handover", &["handover"]), if thorough { vec![0, 1, 2, 3, all] } else { vec![0, 1, 2, 3] }, 400_000),
     ];
     if thorough {
